@@ -29,6 +29,7 @@ def make_flow(kind, k):
 
 def snapshot(f):
     """the state the property talks about ('pre-replay state'): everything get_state() serialises, minus the backup"""
+    if getattr(f, "request", 1) is None: return "no-request"
     st = f.get_state(); st.pop("backup", None)
     return repr(sorted(st.items(), key=lambda kv: kv[0]))
 
@@ -69,7 +70,27 @@ class _W:
     async def wait_closed(self): pass
 
 
+def _drop_log_handlers():
+    """masters of earlier cases leave their log handlers (bound to a closed loop) on the root logger"""
+    import logging
+    root = logging.getLogger()
+    for h in list(root.handlers):
+        if type(h).__module__.startswith("mitmproxy"):
+            root.removeHandler(h)
+
+
 def run(case):
+    import logging
+    logging.disable(logging.CRITICAL)      # F-C53b cases make the real code log crashes; the trace is what is evaluated
+    try:
+        return _run(case)
+    finally:
+        _drop_log_handlers()
+        logging.disable(logging.NOTSET)
+
+
+def _run(case):
+    _drop_log_handlers()
     trace = []
     with installed() as loop:
         cp = ClientPlayback()
@@ -89,28 +110,57 @@ def run(case):
             srv = Srv(trace, loop)
             orig = asyncio.open_connection
             asyncio.open_connection = srv.open
+            def flags(f):
+                ver = 0
+                if getattr(f, "request", None) is not None: ver = int(f.request.headers.get("x-edit", "0"))
+                return [1 if getattr(f, "response", None) else 0, 1 if f.error else 0,
+                        1 if getattr(f, "is_replay", None) else 0, 1 if f._backup else 0, ver]
+            # observe the queue itself: what is put, what the playback loop takes, what stop removes
+            q = cp.queue
+            put0, get0, getnw0 = q.put_nowait, q.get, q.get_nowait
+            def put_nowait(f): trace.append(["enq", flows.index(f)]); return put0(f)
+            async def get():
+                f = await get0(); trace.append(["take", flows.index(f)]); return f
+            q.put_nowait, q.get = put_nowait, get
             try:
                 loop.call_soon(cp.running); loop.pump()
-                for step in case["steps"]:
+                steps = list(case["steps"]) + [["winddown"]]
+                for step in steps:
                     k = step[0]
                     if k == "start":
                         idxs = [i for i in step[1] if i < len(flows)]
                         before = {i: snapshot(flows[i]) for i in idxs}
+                        hadbackup = [i for i in idxs if flows[i]._backup]
                         qbefore = list(cp.queue._queue)
+                        infl = cp.inflight
+                        def code(m):
+                            if m is None: return "none"
+                            for k, v in (("live", 1), ("intercepted", 2), ("missing request", 3), ("missing content", 4),
+                                         ("WebSocket", 5), ("Can only replay HTTP", 6)):
+                                if k in m: return str(v)
+                            return "?"
+                        trace.append(["start", idxs, sorted(set(hadbackup)), [code(cp.check(flows[i])) for i in idxs]])
                         loop.call_soon(cp.start_replay, [flows[i] for i in idxs]); loop.pump()
-                        # what was queued by this call (the playback loop may already have taken the head)
-                        trace.append(["start", idxs])
                         for i in idxs:
-                            pending = any(f is flows[i] for f in qbefore) or cp.inflight is flows[i]
+                            pending = any(f is flows[i] for f in qbefore) or infl is flows[i]
                             if i not in pre or not pending: pre[i] = before[i]
                     elif k == "stop":
                         queued = [flows.index(f) for f in cp.queue._queue]
+                        infl = flows.index(cp.inflight) if cp.inflight is not None else -1
                         loop.call_soon(cp.stop_replay); loop.pump()
                         after = {i: snapshot(flows[i]) for i in queued}
-                        trace.append(["stop", queued, [i for i in queued if after[i] != pre[i]]])
+                        trace.append(["stop", queued, sorted(set(i for i in queued if after[i] != pre[i])),
+                                      [flows.index(f) for f in cp.queue._queue], infl])
+                    elif k == "edit":
+                        if step[1] < len(flows) and getattr(flows[step[1]], "request", None) is not None:
+                            f = flows[step[1]]
+                            f.backup(); f.request.headers["x-edit"] = str(int(f.request.headers.get("x-edit", "0")) + 1)
+                            trace.append(["edit", step[1]])
                     elif k == "connect":
                         if srv.pending:
-                            srv.pending.popleft().set_result(step[1] == "ok"); loop.pump()
+                            ok = step[1] == "ok"
+                            trace.append(["connected", 1 if ok else 0])
+                            srv.pending.popleft().set_result(ok); loop.pump()
                     elif k == "respond":
                         live = [c for c in srv.conns if c["k"] is not None and not c["closed"] and not c.get("answered")]
                         if live:
@@ -123,11 +173,20 @@ def run(case):
                             live[0]["r"].feed_eof(); loop.pump()
                     elif k == "tick":
                         loop.advance(step[1]); loop.pump()
+                    elif k == "winddown":
+                        # liveness exploration: the server refuses / closes everything still pending
+                        trace.append(["winddown"])
+                        for _ in range(4 * len(flows) + 20):
+                            live = [c for c in srv.conns if not c["closed"] and not c.get("answered")]
+                            if srv.pending: srv.pending.popleft().set_result(False)
+                            elif live: live[0]["answered"] = True; live[0]["r"].feed_eof()
+                            else: break
+                            loop.pump()
                     trace.append(["state", [flows.index(f) for f in cp.queue._queue],
-                                  flows.index(cp.inflight) if cp.inflight is not None else -1])
-                final = [[1 if getattr(f, "response", None) else 0, 1 if f.error else 0,
-                          1 if getattr(f, "is_replay", None) else 0, 1 if f._backup else 0] for f in flows]
+                                  flows.index(cp.inflight) if cp.inflight is not None else -1,
+                                  [flags(f) for f in flows]])
                 loop.call_soon(lambda: asyncio.ensure_future(cp.done())); loop.pump()
             finally:
                 asyncio.open_connection = orig
-    return {"trace": trace, "final": final}
+                _drop_log_handlers()
+    return {"trace": trace}
